@@ -28,6 +28,26 @@ BytesCases(ki) ==
      [fam |-> "C09", kind |-> k, src |-> "bytes", items |-> IF warm THEN <<Warm(k), s, Warm(k)>> ELSE <<s>>, probes |-> TRUE, scribble |-> TRUE,
       class |-> k \o "_bytes" \o ToString(Len(s)) \o (IF warm THEN "_warm" ELSE "")]]
 
+\* well-formed payloads of different forms; every ordered pair is decoded by one receiver
+Forms(k) ==
+  CASE k \in {"h265", "h265_donl"} -> << <<96, 1, 0, 7, 0, 3, 64, 1, 5, 0, 0, 3, 66, 1, 6>>,      \* aggregation packet
+                                        <<98, 1, 147, 0, 7, 1, 2, 3>>,                              \* FU start
+                                        <<98, 1, 19, 9, 8, 7>>,                                     \* FU middle
+                                        <<100, 1, 131, 56, 170, 187, 204, 38, 1, 9>>,               \* PACI with a 3-byte PHES (TSCI)
+                                        <<100, 1, 2, 0, 38, 1, 9>>,                                 \* PACI without PHES
+                                        <<100, 1, 3, 33, 1, 2, 38, 1, 9, 9>>,                       \* PACI with PHSsize 18? (short PHES) - may be refused
+                                        <<38, 1, 0, 9, 4, 4, 4>> >>                                 \* single NAL unit
+    [] k = "vp8" -> << <<144, 240, 129, 35, 69, 231, 1, 2, 3>>, <<144, 128, 35, 7>>, <<16, 1, 2>>, <<128, 32, 165, 9>>, <<128, 16, 57, 9>>, <<128, 64, 200, 9>> >>
+    [] k = "vp9" -> << <<255, 129, 35, 53, 3, 4, 56, 2, 128, 1, 224, 1, 64, 0, 240, 2, 52, 1, 88, 2, 3, 9, 9, 9>>, <<128, 5, 9>>, <<160, 129, 1, 34, 7, 9>>,
+                        <<208, 200, 5, 6, 9>>, <<2, 24, 1, 2, 3, 4, 1, 4, 9>>, <<0, 9>>, <<176, 130, 2, 33, 9>> >>
+    [] k \in {"h264", "h264_avc"} -> << <<124, 133, 1, 2, 3>>, <<124, 5, 4, 5>>, <<124, 69, 6>>, <<120, 0, 2, 103, 1, 0, 2, 104, 2>>, <<101, 1, 2>> >>
+    [] k \in {"av1", "av1_legacy"} -> << <<80, 2, 48, 1, 50, 2>>, <<144, 7, 8>>, <<16, 48, 1>>, <<0, 2, 48, 1>>, <<216, 1, 9, 50, 3>> >>
+    [] OTHER -> << <<1, 2, 3>>, <<4>> >>
+PairCases(ki) ==
+  LET k == Kinds[ki]  f == Forms(k)  n == Len(f) IN
+  [j \in 1..(n * n) |->
+     [fam |-> "C09", kind |-> k, src |-> "bytes", items |-> <<f[((j - 1) \div n) + 1], f[((j - 1) % n) + 1], f[((j - 1) \div n) + 1]>>, probes |-> TRUE, scribble |-> TRUE,
+      class |-> k \o "_wellformed_pairs"]]
 PayloadersFor(k) ==
   CASE k \in {"h264", "h264_avc"} -> <<"h264", "h264_nostap">>
     [] k \in {"h265", "h265_single", "h265_fu", "h265_ap", "h265_paci"} -> <<"h265", "h265_skipagg">>
@@ -67,7 +87,7 @@ SweepCases == IF Sweep THEN [j \in 1..(Len(Kinds) * 256) |->
   ELSE <<>>
 RECURSIVE Concat(_)
 Concat(ss) == IF ss = <<>> THEN <<>> ELSE Head(ss) \o Concat(Tail(ss))
-Raw == Concat([ki \in 1..Len(Kinds) |-> BytesCases(ki) \o FeedCases(ki)]) \o SweepCases
+Raw == Concat([ki \in 1..Len(Kinds) |-> BytesCases(ki) \o FeedCases(ki) \o PairCases(ki)]) \o SweepCases
 CaseSeq == [i \in 1..Len(Raw) |-> Raw[i] @@ [case |-> i]]
 ASSUME WriteCases(CaseSeq) /\ PrintT(<<"CASES", Len(CaseSeq)>>)
 =============================================================================
